@@ -79,7 +79,11 @@ def build_packages(pkgs, dest):
         os.makedirs(outdir)
         cmd = [common.GO, "test", "-c", "-vet=off", "-tags", "verif", "-o", outdir + "/"] + ["./gen/" + n for n in pkgs]
         t0 = time.time()
-        p = subprocess.run(cmd, cwd=w, env=common.GOENV, stdout=subprocess.PIPE, stderr=subprocess.STDOUT, text=True, timeout=1500)
+        for attempt in range(3):
+            p = subprocess.run(cmd, cwd=w, env=common.GOENV, stdout=subprocess.PIPE, stderr=subprocess.STDOUT, text=True, timeout=1500)
+            # another check may prune the shared build cache (common.prune_gocache) while this build reads it: try again
+            if p.returncode == 0 or not ("gocache" in p.stdout and "no such file or directory" in p.stdout):
+                break
         if p.returncode != 0:
             raise Infra("go build of generated optics packages failed:\n%s" % p.stdout[-6000:])
         out = {}
